@@ -284,21 +284,31 @@ func rlOracle(r *Result, ops, impl []string, prop string) {
 				case ownRefuses:
 					// own limit refused: per the property the global bucket must not be charged; the shadow
 					// global stays as it is. The real one is observed by a following `global` op.
-					charge(ib, now, false)
-					if cb != nil {
-						charge(cb, now, false)
-					}
-				default:
-					// refusal attributable to the global bucket (or too close to call). Whether the client's own
-					// buckets were charged depends on the consultation order, which the oracle must not assume:
-					// take the tokens in the shadow (a lower bound of the real level) but do not count an
-					// admission (admitted stays a lower bound of the real count).
+					// An own bucket consulted before the refusing one may have given a token in the real
+					// limiter (per-IP is charged before per-connection refuses, or the reverse: the order is
+					// not assumed), so the shadow takes it where it could have been taken and stays a lower
+					// bound of the real level; no admission is counted.
 					for _, b := range []*xb{ib, cb} {
 						if b == nil {
 							continue
 						}
 						adm := b.admitted
-						charge(b, now, has(b, now))
+						charge(b, now, !lacks(b, now))
+						b.admitted = adm
+					}
+				default:
+					// refusal attributable to the global bucket (or too close to call). Whether the client's own
+					// buckets were charged depends on the consultation order, which the oracle must not assume:
+					// take the tokens in the shadow whenever the real bucket could have given one (level not
+					// certainly below 1: an own bucket holding exactly 1 IS charged by an own-first limiter
+					// before the global bucket refuses), so that the shadow stays a lower bound of the real
+					// level, but do not count an admission (admitted stays a lower bound of the real count).
+					for _, b := range []*xb{ib, cb} {
+						if b == nil {
+							continue
+						}
+						adm := b.admitted
+						charge(b, now, !lacks(b, now))
 						b.admitted = adm
 					}
 					charge(ref.global, now, false)
